@@ -117,7 +117,10 @@ def work_hist(arg):
         job = ["sched %d" % size, "recover %d" % recover, "peer %s" % base.hex()]
         meta = []
         for pos, val, chunk, limit in muts:
-            m = bytearray(base); m[pos] = val
+            if isinstance(pos, bytes):
+                m = pos            # whole-file mutant (digest twin)
+            else:
+                m = bytearray(base); m[pos] = val
             job.append("disk %s" % bytes(m).hex())
             for h in hists:
                 job.append("hist %s" % h)
@@ -126,8 +129,10 @@ def work_hist(arg):
         for c, (pos, val, chunk, limit, h) in zip(cs, meta):
             res["n"] += 1
             s = c.first("S")
-            case = {"hist": h, "base": base.hex(), "content": content.hex(), "pos": pos, "val": val, "limit": limit, "size": size, "chunk": chunk,
-                    "name": name, "recover": recover}
+            case = {"hist": h, "base": base.hex(), "content": content.hex(), "pos": pos if not isinstance(pos, bytes) else "file:" + pos.hex(), "val": val,
+                    "limit": limit, "size": size, "chunk": chunk, "name": name, "recover": recover}
+            if isinstance(pos, bytes):
+                pos = -1
             if not c.done or s is None:
                 res["viol"].append(({"check": "C15", "predicate": "crash-or-hang", "history": h.split(",")[0][0]}, "%s byte %d := %d history %s: %s" % (name, pos, val, h, c.status()), case))
                 continue
@@ -208,6 +213,15 @@ def run(ctx):
         ctx.extra.setdefault("history_part", {})[name] = {"mutants": len(muts), "histories": len(hs)}
         for ch in core.chunks(muts, 6 if thorough else 12):
             hjobs.append((name, base, content, None, ch, hs, (1, 7, 32768)))
+    # digest twins (value-dependent shape): the damaged chunk's stored bytes are replaced by other bytes of the same length that
+    # decompress to the same size and whose digest shares its first byte - 0x00 - with the index digest
+    tw = [Cfg(2, b"", 0, 3, 1), Cfg(2, universe.DELTA_DICT, 0, 1, 1), Cfg(2, b"", 1, 2, 1)] + ([Cfg(2, b"", 0, 0, 0), Cfg(2, universe.DELTA_DICT, 1, 1, 0)] if thorough else [])
+    for cfg in tw:
+        for at in (0, 1, 2):
+            good, mut, content, ci, limit, Q = universe.twin_file(cfg, ctx.seed, at=at)
+            hs = ["-"] + histories(len(zckref.parse(good).chunks), thorough)
+            hjobs.append(("twin:%s@%d" % (cfg.name(), at), good, content, None, [(mut, 0, ci, limit)], hs, (1, 7, 32768)))
+    ctx.bounds["digest_twins"] = "%d configurations x 3 positions: a chunk replaced by a same-length twin whose digest also begins with 0x00" % len(tw)
     for r in core.pmap(work_hist, hjobs):
         ctx.states += r["n"]; ctx.evaluations += r["n"]; ctx.transitions += r["n"] * 3
         ctx.outcomes |= {str(o) for o in r["outcomes"]}
@@ -230,7 +244,10 @@ def run(ctx):
 def replay(case, quiet=True):
     base = bytes.fromhex(case["base"]); content = bytes.fromhex(case["content"])
     if "hist" in case:
-        r = work_hist((case["name"], base, content, None, [(case["pos"], case["val"], case["chunk"], case["limit"])], [case["hist"]], (case["size"],)))
+        pos = case["pos"]
+        if isinstance(pos, str) and pos.startswith("file:"):
+            pos = bytes.fromhex(pos[5:])
+        r = work_hist((case["name"], base, content, None, [(pos, case["val"], case["chunk"], case["limit"])], [case["hist"]], (case["size"],)))
         return {"violated": bool(r["viol"]), "detail": [v[1] for v in r["viol"]][:2]}
     r = work(("replay", base, content, case["scheds"], case["pos"], case["pos"] + 1, case["limit"], 1, case["vals"],
               case.get("recover", 0), case.get("after", len(content))))
